@@ -52,7 +52,11 @@ theorem encRep_length (S : Schema) (num m : Nat) : ∀ (l : List Val),
   | .msg fs :: vs => by
     simp only [encRep, sizeRep, List.length_append]
     rw [encRep_length S num m vs, lenDelim_length, encFields_length S (S.fieldsOf m) fs]
-  | .int _ :: vs | .str _ :: vs | .none :: vs | .strs _ :: vs | .list _ :: vs | .smap _ :: vs => by
+  | .none :: vs => by
+    simp only [encRep, sizeRep, List.length_append]
+    rw [encRep_length S num m vs, lenDelim_length]
+    simp
+  | .int _ :: vs | .str _ :: vs | .strs _ :: vs | .list _ :: vs | .smap _ :: vs => by
     simp only [encRep, sizeRep, List.length_append]
     rw [encRep_length S num m vs]
     simp
